@@ -233,6 +233,17 @@ def gen_plan(wl, fr, idx):
                                    'specs': [gen_signal_spec(wl, band, i) for i in range(n)]})
         plan['sim'] = gen_sim_cfg(fr, 4)
         n_ops = min(n_ops, 8)
+        if wl.random() < 0.3:
+            # group fit -> settings rebound (not edited in place) -> refit with the same layout -> recompute
+            a = wl.randrange(nd)
+            shape = plan['arrays'][a]['shape']
+            axis = wl.choice((0, 0, None)) if len(shape) == 1 else wl.choice((0, 1, '01', '01'))
+            ops.append({'op': 'gfit', 'array': a, 'axis': axis, 'n_jobs': wl.choice((1, 2))})
+            op = {'op': 'edit', 'target': 'thresholds_replace', 'value': gen_thresholds(wl, cur['burst_method'])}
+            ops.append(op)
+            _shadow_apply(cur, op)
+            ops.append({'op': 'gfit', 'array': a, 'axis': axis, 'n_jobs': wl.choice((1, 2, 3))})
+            ops.append({'op': 'grecompute', 'r': wl.choice((None, 0.1, 0.2))})
         while len(ops) < n_ops:
             r = wl.random()
             if r < 0.45 or not ops:
